@@ -43,7 +43,9 @@ def aliasN (n : Node) (v : Val) (p : List Seg) (live : Bool) : Option Bool :=
     (match p, w with
      | s :: rest, .struct fs =>
        (match findField chld fs s.text with
-        | some (ch, fv) => if ch.isLeaf then (if ch.ptr && fv.isNilPtr then none else some live) else aliasN ch fv rest live
+        -- a pointer leaf: the write goes through the pointer, whose target is the object's own even when the
+        -- struct holding the pointer is a local copy (a struct held by value in a map)
+        | some (ch, fv) => if ch.isLeaf then (if ch.ptr && fv.isNilPtr then none else some (live || ch.ptr)) else aliasN ch fv rest live
         | none => none)
      | _, _ => none)
 termination_by structural p
